@@ -156,22 +156,31 @@ def fieldsAt (req : SolveReq R) (g : Geom R) (S : Nat → Nat → C) (l : Nat) :
   let sgn : R := if req.footprint then -1.0 else 1.0
   (dft2 F sgn g.nye g.nxe fp.get, dft2 F sgn g.nye g.nxe fq.get)
 
+/-- the argument checks, in the order the code performs them -/
+def solveErr (req : SolveReq R) : Option ErrKind :=
+  if req.nlx % 2 > 0 ∨ req.nly % 2 > 0 then some .valueError
+  else if req.precision = .bad then some .valueError
+  else if req.levels.any (fun l => decide (l ≥ req.nz)) then some .indexError
+  else none
+
+/-- the result when the checks pass: slice `k` is the field at node `levels[k]` -/
+def solveOk (req : SolveReq R) : SolveOut R :=
+  let g := geom F req
+  let S := srcSpectrum F req g
+  let lv := req.levels.toArray
+  let fields := Tab1.tab lv.size (fun k => fieldsAt F req g S.get (lv.getD k 0))
+  { nlv := lv.size, ny := req.ny, nx := req.nx,
+    Z := fun k => req.z (lv.getD k 0),
+    X := fun i => F.natCast i * g.dx,
+    Y := fun j => F.natCast j * g.dy,
+    conc := fun k j i => F.re ((fields.get k).1.get (j + g.py) (i + g.px)),
+    flx := fun k j i => F.re ((fields.get k).2.get (j + g.py) (i + g.px)) }
+
 /-- `steady_state_transport_solver` -/
 def solve (req : SolveReq R) : Except ErrKind (SolveOut R) :=
-  if req.nlx % 2 > 0 ∨ req.nly % 2 > 0 then .error .valueError
-  else if req.precision = .bad then .error .valueError
-  else if req.levels.any (fun l => decide (l ≥ req.nz)) then .error .indexError
-  else
-    let g := geom F req
-    let S := srcSpectrum F req g
-    let lv := req.levels.toArray
-    let fields := Tab1.tab lv.size (fun k => fieldsAt F req g S.get (lv.getD k 0))
-    .ok { nlv := lv.size, ny := req.ny, nx := req.nx,
-          Z := fun k => req.z (lv.getD k 0),
-          X := fun i => F.natCast i * g.dx,
-          Y := fun j => F.natCast j * g.dy,
-          conc := fun k j i => F.re ((fields.get k).1.get (j + g.py) (i + g.px)),
-          flx := fun k j i => F.re ((fields.get k).2.get (j + g.py) (i + g.px)) }
+  match solveErr req with
+  | some e => .error e
+  | none => .ok (solveOk F req)
 
 end
 
